@@ -46,7 +46,7 @@ var c09Models2 = map[string]sdf.SDF2{}
 // (text / Bezier sampling) draws from a process-wide seeded random source, so the constructed geometry depends on
 // how many shapes were built before - that is construction, not rendering, and is kept identical in every process.
 func c09BuildModels() {
-	for _, m := range []string{"sphere", "csg", "text", "bolt", "stl", "twist"} {
+	for _, m := range []string{"sphere", "csg", "text", "bolt", "stl", "twist", "graze"} {
 		c09Models3[m] = c09Make3(m)
 	}
 	for _, m := range []string{"circlebox", "text2", "gear"} {
@@ -98,6 +98,12 @@ func c09Make3(name string) sdf.SDF3 {
 			return nil
 		}
 		return sdf.TwistExtrude3D(p, 4, 2.5)
+	case "graze": // a surface that passes 1e-9 from dozens of lattice nodes (20 cells over a 20 unit box):
+		// slivers whose vertices coincide once rounded to float32 - anything a writer does about them has to be deterministic
+		b, _ := sdf.Box3D(v3.Vec{X: 20, Y: 20, Z: 20}, 0)
+		// the uniform renderer samples this box at half-integer coordinates; 62.75 is a sum of three squared half-integers in 168 ways
+		sp, _ := sdf.Sphere3D(math.Sqrt(62.75) + 1e-9)
+		return sdf.Intersect3D(b, sp)
 	case "stl":
 		s, err := obj.ImportSTL("/repo/files/teapot.stl", 20, 3, 5)
 		if err != nil {
@@ -495,7 +501,7 @@ func checkC09(c *Ctx) {
 		}
 		specs = append(specs, c09Spec{m, "mc-uniform", cells, "mem"}, c09Spec{m, "mc-octree", cells, "mem"})
 	}
-	specs = append(specs, c09Spec{"csg", "mc-uniform", 20, "stl"}, c09Spec{"csg", "mc-octree", 20, "stl"}, c09Spec{"sphere", "mc-uniform", 16, "3mf"},
+	specs = append(specs, c09Spec{"csg", "mc-uniform", 20, "stl"}, c09Spec{"csg", "mc-octree", 20, "stl"}, c09Spec{"sphere", "mc-uniform", 16, "3mf"}, c09Spec{"graze", "mc-uniform", 20, "3mf"}, c09Spec{"graze", "mc-uniform", 20, "stl"},
 		c09Spec{"csg", "mc-uniform", 33, "mem"}, c09Spec{"twist", "mc-uniform", 40, "mem"}, c09Spec{"twist", "mc-octree", 40, "mem"})
 	for _, m := range []string{"circlebox", "text2", "gear"} {
 		specs = append(specs, c09Spec{m, "ms-uniform", 40, "mem"}, c09Spec{m, "ms-quadtree", 40, "mem"})
